@@ -184,13 +184,19 @@ def Pipe.stampedTs (p : Pipe) : List Nat :=
     | _ => []
   | none => []
 
+/-- Handed-out timestamps whose commit was not rejected by `sendToWriteCh`. -/
+def Pipe.liveTs (p : Pipe) : List Nat :=
+  (p.sys.hist.map (·.ts)).filter (fun t => !p.rejected.contains t)
+
 structure PInv (d : Bool) (n : Nat) (p : Pipe) : Prop where
   reach : Reach false d n p.sys
   /-- exactly the lock holder is between `lock` and `unlock` -/
   lockIff : ∀ tid, (p.cph tid).holds = true ↔ p.lockHolder = some tid
   /-- the history of handed-out timestamps = everything enqueued so far (in channel order),
       plus the one the lock holder has just been given -/
-  histEnq : p.sys.hist.map (·.ts) = p.enq.map (·.ts) ++ p.stampedTs
+  histEnq : p.liveTs = p.enq.map (·.ts) ++ p.stampedTs
+  /-- rejected timestamps were handed out and have been reported done -/
+  rejHist : ∀ t ∈ p.rejected, t ∈ p.sys.hist.map (·.ts) ∧ t ∈ p.sys.doneCommits
   keysEnq : ∀ q ∈ p.enq, ∃ e ∈ p.sys.hist, e.ts = q.ts ∧ e.conflictKeys = q.keys
   keysStamped : ∀ tid ts ks, p.cph tid = .stamped ts ks → ∃ e ∈ p.sys.hist, e.ts = ts ∧ e.conflictKeys = ks
   /-- the memtable = all entries of the finished batches, then a prefix of the current batch -/
@@ -198,14 +204,15 @@ structure PInv (d : Bool) (n : Nat) (p : Pipe) : Prop where
     applied ++ p.pending = (p.batch.getD []).flatMap Req.entries
   idle : p.batch = none → p.pending = []
   sigEq : p.signalled = p.finished.map (·.ts)
-  ackSub : ∀ t ∈ p.sys.doneCommits, t ∈ p.signalled
-  acked : ∀ tid ts, p.cph tid = .acked ts → ts ∈ p.sys.doneCommits
+  ackSub : ∀ t ∈ p.sys.doneCommits, t ∈ p.signalled ∨ t ∈ p.rejected
+  acked : ∀ tid ts, p.cph tid = .acked ts → ts ∈ p.sys.doneCommits ∧ ts ∈ p.signalled
 
 theorem PInv.sysInv {d n p} (h : PInv d n p) : SysInv d n p.sys := h.reach.inv
 
 /-- Everything ever enqueued is strictly ordered by commit timestamp. -/
 theorem PInv.enqSorted {d n p} (h : PInv d n p) : p.enq.Pairwise (fun a b => a.ts < b.ts) := by
-  have hs := (pairwise_map_lt (fun e : HistEntry => e.ts) p.sys.hist).mpr h.sysInv.histSorted
+  have hs0 := (pairwise_map_lt (fun e : HistEntry => e.ts) p.sys.hist).mpr h.sysInv.histSorted
+  have hs : p.liveTs.Pairwise (· < ·) := List.Pairwise.sublist List.filter_sublist hs0
   rw [h.histEnq] at hs
   exact (pairwise_map_lt (fun q : Req => q.ts) _).mp (List.pairwise_append.mp hs).1
 
@@ -214,9 +221,10 @@ theorem setPh_other (p : Pipe) (tid t : Nat) (c : CPhase) (h : t ≠ tid) : p.se
   simp [Pipe.setPh, h]
 
 theorem PInv.init (d : Bool) (n : Nat) : PInv d n (Pipe.opened d n) := by
-  refine ⟨Reach.init, ?_, by simp [Pipe.opened, Pipe.enq, Pipe.stampedTs, Sys.opened],
-    by simp [Pipe.opened, Pipe.enq], by simp [Pipe.opened], ⟨[], by simp [Pipe.opened]⟩,
-    by simp [Pipe.opened], by simp [Pipe.opened], by simp [Pipe.opened, Sys.opened], by simp [Pipe.opened]⟩
+  refine ⟨Reach.init, ?_, by simp [Pipe.opened, Pipe.enq, Pipe.stampedTs, Pipe.liveTs, Sys.opened],
+    by simp [Pipe.opened], by simp [Pipe.opened, Pipe.enq], by simp [Pipe.opened],
+    ⟨[], by simp [Pipe.opened]⟩, by simp [Pipe.opened], by simp [Pipe.opened],
+    by simp [Pipe.opened, Sys.opened], by simp [Pipe.opened]⟩
   intro tid; simp [Pipe.opened, CPhase.holds]
 
 /-- Lock bookkeeping when the (unique) holder `tid` moves to another holding phase. -/
@@ -240,6 +248,22 @@ theorem lockIff_release (p : Pipe) (tid : Nat) (c : CPhase) (hc : c.holds = fals
     · intro hx; have := (h t).mp hx; rw [hh] at this; cases this; exact absurd rfl ht
     · intro hx; cases hx
 
+/-- A phase change of `tid` to a phase that is neither `stamped` nor `acked` keeps the two
+    per-phase facts. -/
+theorem phase_facts_keep {d n} {p : Pipe} (ih : PInv d n p) (tid : Nat) (c : CPhase)
+    (h1 : ∀ ts ks, c ≠ .stamped ts ks) (h2 : ∀ ts, c ≠ .acked ts) :
+    (∀ t ts ks, p.setPh tid c t = .stamped ts ks → ∃ e ∈ p.sys.hist, e.ts = ts ∧ e.conflictKeys = ks) ∧
+    (∀ t ts, p.setPh tid c t = .acked ts → ts ∈ p.sys.doneCommits ∧ ts ∈ p.signalled) := by
+  constructor
+  · intro t ts ks hc
+    by_cases ht : t = tid
+    · subst ht; rw [setPh_same] at hc; exact absurd hc (h1 ts ks)
+    · rw [setPh_other _ _ _ _ ht] at hc; exact ih.keysStamped t ts ks hc
+  · intro t ts hc
+    by_cases ht : t = tid
+    · subst ht; rw [setPh_same] at hc; exact absurd hc (h2 ts)
+    · rw [setPh_other _ _ _ _ ht] at hc; exact ih.acked t ts hc
+
 theorem PReach.inv {d : Bool} {n : Nat} {p : Pipe} (h : PReach d n p) : PInv d n p := by
   induction h with
   | init => exact PInv.init d n
@@ -260,8 +284,10 @@ theorem PReach.inv {d : Bool} {n : Nat} {p : Pipe} (h : PReach d n p) : PInv d n
             (by intro t e; subst e; simp [Pipe.sysAllowed] at hal)
             (by intro t e; subst e; simp [Pipe.sysAllowed] at hal)
             (by intro t u e; subst e; simp [Pipe.sysAllowed] at hal) hs
-          refine ⟨Reach.step l ih.reach hs, ih.lockIff, ?_, ?_, ?_, ih.memFlat, ih.idle, ih.sigEq, ?_, ?_⟩
-          · simp only [hfr.1]; exact ih.histEnq
+          refine ⟨Reach.step l ih.reach hs, ih.lockIff, ?_, ?_, ?_, ?_, ih.memFlat, ih.idle, ih.sigEq, ?_, ?_⟩
+          · have := ih.histEnq
+            simp only [Pipe.liveTs, hfr.1] at this ⊢; exact this
+          · intro t ht; simp only [hfr.1, hfr.2]; exact ih.rejHist t ht
           · intro q hq; simp only [hfr.1]; exact ih.keysEnq q hq
           · intro t ts ks hc; simp only [hfr.1]; exact ih.keysStamped t ts ks hc
           · intro t ht; simp only [hfr.2] at ht; exact ih.ackSub t ht
@@ -278,11 +304,8 @@ theorem PReach.inv {d : Bool} {n : Nat} {p : Pipe} (h : PReach d n p) : PInv d n
           cases hl : p.lockHolder with
           | none => rfl
           | some x => exact absurd (.inl (by simp [hl])) hc
-        have hidle : p.cph tid = .idle := by
-          cases hp : p.cph tid with
-          | idle => rfl
-          | _ => exact absurd (.inr (by simp [hp])) hc
-        refine ⟨ih.reach, ?_, ?_, ih.keysEnq, ?_, ih.memFlat, ih.idle, ih.sigEq, ih.ackSub, ?_⟩
+        obtain ⟨hk1, hk2⟩ := phase_facts_keep ih tid .locked (by intro _ _ h; cases h) (by intro _ h; cases h)
+        refine ⟨ih.reach, ?_, ?_, ih.rejHist, ih.keysEnq, hk1, ih.memFlat, ih.idle, ih.sigEq, ih.ackSub, hk2⟩
         · intro t
           by_cases ht : t = tid
           · subst ht; simp [setPh_same, CPhase.holds]
@@ -292,16 +315,8 @@ theorem PReach.inv {d : Bool} {n : Nat} {p : Pipe} (h : PReach d n p) : PInv d n
             · intro hx; simp only [Option.some.injEq] at hx; exact absurd hx.symm ht
         · have := ih.histEnq
           simp only [Pipe.stampedTs, hnone] at this
-          simp only [Pipe.stampedTs, setPh_same, Pipe.enq] at this ⊢
+          simp only [Pipe.stampedTs, setPh_same, Pipe.enq, Pipe.liveTs] at this ⊢
           exact this
-        · intro t ts ks hcp
-          by_cases ht : t = tid
-          · subst ht; simp only [setPh_same] at hcp; cases hcp
-          · simp only [setPh_other _ _ _ _ ht] at hcp; exact ih.keysStamped t ts ks hcp
-        · intro t ts hcp
-          by_cases ht : t = tid
-          · subst ht; simp only [setPh_same] at hcp; cases hcp
-          · simp only [setPh_other _ _ _ _ ht] at hcp; exact ih.acked t ts hcp
     | stamp tid =>
       simp only [Pipe.step] at hstep
       split at hstep
@@ -319,35 +334,40 @@ theorem PReach.inv {d : Bool} {n : Nat} {p : Pipe} (h : PReach d n p) : PInv d n
           · rw [hres] at hstep
             simp only [Option.some.injEq] at hstep
             subst hstep
-            refine ⟨Reach.step _ ih.reach hs, lockIff_release p tid .idle rfl ih.lockIff hholder, ?_, ?_, ?_,
+            obtain ⟨hk1, hk2⟩ := phase_facts_keep ih tid .idle (by intro _ _ h; cases h) (by intro _ h; cases h)
+            refine ⟨Reach.step _ ih.reach hs, lockIff_release p tid .idle rfl ih.lockIff hholder, ?_, ?_, ?_, ?_,
               ih.memFlat, ih.idle, ih.sigEq, ?_, ?_⟩
             · have := ih.histEnq
               rw [hst0] at this
-              simp only [hhist, Pipe.stampedTs, Pipe.enq] at this ⊢
+              simp only [hhist, Pipe.stampedTs, Pipe.enq, Pipe.liveTs] at this ⊢
               exact this
+            · intro t ht; simp only [hhist, hdc]; exact ih.rejHist t ht
             · intro q hq; simp only [hhist]; exact ih.keysEnq q hq
-            · intro t ts ks hcp
-              simp only [hhist]
-              by_cases ht : t = tid
-              · subst ht; simp only [setPh_same] at hcp; cases hcp
-              · simp only [setPh_other _ _ _ _ ht] at hcp; exact ih.keysStamped t ts ks hcp
+            · intro t ts ks hcp; simp only [hhist]; exact hk1 t ts ks hcp
             · intro t ht; simp only [hdc] at ht; exact ih.ackSub t ht
-            · intro t ts hcp
-              simp only [hdc]
-              by_cases ht : t = tid
-              · subst ht; simp only [setPh_same] at hcp; cases hcp
-              · simp only [setPh_other _ _ _ _ ht] at hcp; exact ih.acked t ts hcp
+            · intro t ts hcp; simp only [hdc]; exact hk2 t ts hcp
           · rw [hres] at hstep
             simp only [Option.some.injEq] at hstep
             subst hstep
+            have hfresh : p.sys.o.nextTxnTs ∉ p.rejected := by
+              intro hm
+              obtain ⟨e, he, ee⟩ := List.mem_map.mp (ih.rejHist _ hm).1
+              have := (hI.histLt e he).2
+              omega
             refine ⟨Reach.step _ ih.reach hs,
-              lockIff_keep p tid _ rfl ih.lockIff hholder, ?_, ?_, ?_,
+              lockIff_keep p tid _ rfl ih.lockIff hholder, ?_, ?_, ?_, ?_,
               ih.memFlat, ih.idle, ih.sigEq, ?_, ?_⟩
             · have := ih.histEnq
               rw [hst0] at this
-              simp only [hhist, Pipe.stampedTs, hholder, setPh_same, Pipe.enq, List.map_append,
-                List.map_cons, List.map_nil] at this ⊢
-              rw [this]; simp
+              simp only [Pipe.liveTs, Pipe.enq, List.append_nil] at this
+              simp only [hhist, Pipe.stampedTs, hholder, setPh_same, Pipe.enq, Pipe.liveTs, List.map_append,
+                List.map_cons, List.map_nil, List.filter_append, this]
+              congr 1
+              simp [List.filter_cons, hfresh]
+            · intro t ht
+              obtain ⟨h1, h2⟩ := ih.rejHist t ht
+              simp only [hhist, hdc, List.map_append, List.mem_append]
+              exact ⟨.inl h1, h2⟩
             · intro q hq
               obtain ⟨e, he, h1, h2⟩ := ih.keysEnq q hq
               exact ⟨e, by simp only [hhist]; exact List.mem_append.mpr (.inl he), h1, h2⟩
@@ -374,11 +394,12 @@ theorem PReach.inv {d : Bool} {n : Nat} {p : Pipe} (h : PReach d n p) : PInv d n
         simp only [Option.some.injEq] at hstep
         subst hstep
         have hholder : p.lockHolder = some tid := (ih.lockIff tid).mp (by simp [hcp, CPhase.holds])
-        refine ⟨ih.reach, lockIff_keep p tid _ rfl ih.lockIff hholder, ?_, ?_, ?_, ih.memFlat, ih.idle,
-          ih.sigEq, ih.ackSub, ?_⟩
+        obtain ⟨hk1, hk2⟩ := phase_facts_keep ih tid (.enqueued ts) (by intro _ _ h; cases h) (by intro _ h; cases h)
+        refine ⟨ih.reach, lockIff_keep p tid _ rfl ih.lockIff hholder, ?_, ih.rejHist, ?_, hk1, ih.memFlat, ih.idle,
+          ih.sigEq, ih.ackSub, hk2⟩
         · have := ih.histEnq
-          simp only [Pipe.stampedTs, hholder, hcp, Pipe.enq] at this
-          simp only [Pipe.stampedTs, hholder, setPh_same, Pipe.enq, List.map_append, List.map_cons,
+          simp only [Pipe.stampedTs, hholder, hcp, Pipe.enq, Pipe.liveTs] at this
+          simp only [Pipe.stampedTs, hholder, setPh_same, Pipe.enq, Pipe.liveTs, List.map_append, List.map_cons,
             List.map_nil, List.append_nil] at this ⊢
           rw [this]; simp
         · intro q hq
@@ -389,14 +410,67 @@ theorem PReach.inv {d : Bool} {n : Nat} {p : Pipe} (h : PReach d n p) : PInv d n
           · exact ih.keysEnq q (by simp [Pipe.enq, hq])
           · simp at hq; subst hq
             exact ih.keysStamped tid ts keys hcp
-        · intro t ts' ks hc
-          by_cases ht : t = tid
-          · subst ht; simp only [setPh_same] at hc; cases hc
-          · simp only [setPh_other _ _ _ _ ht] at hc; exact ih.keysStamped t ts' ks hc
-        · intro t ts' hc
-          by_cases ht : t = tid
-          · subst ht; simp only [setPh_same] at hc; cases hc
-          · simp only [setPh_other _ _ _ _ ht] at hc; exact ih.acked t ts' hc
+      · cases hstep
+    | reject tid =>
+      simp only [Pipe.step] at hstep
+      split at hstep
+      · rename_i ts keys hcp
+        cases hs : p.sys.step (.doneCommit ts) with
+        | none => rw [hs] at hstep; simp at hstep
+        | some s =>
+          rw [hs] at hstep
+          simp only [Option.some.injEq] at hstep
+          subst hstep
+          have hfr := Sys.step_doneCommit p.sys s ts hs
+          have hholder : p.lockHolder = some tid := (ih.lockIff tid).mp (by simp [hcp, CPhase.holds])
+          obtain ⟨hk1, hk2⟩ := phase_facts_keep ih tid .idle (by intro _ _ h; cases h) (by intro _ h; cases h)
+          obtain ⟨e0, he0, hts0, _⟩ := ih.keysStamped tid ts keys hcp
+          have hlive := ih.histEnq
+          simp only [Pipe.stampedTs, hholder, hcp] at hlive
+          -- ts is above everything enqueued
+          have hsorted : (p.enq.map (·.ts) ++ [ts]).Pairwise (· < ·) := by
+            rw [← hlive]
+            exact List.Pairwise.sublist List.filter_sublist
+              ((pairwise_map_lt (fun e : HistEntry => e.ts) p.sys.hist).mpr hI.histSorted)
+          have hlt : ∀ a ∈ p.enq.map (·.ts), a < ts := by
+            intro a ha
+            exact (List.pairwise_append.mp hsorted).2.2 a ha ts (List.mem_singleton.mpr rfl)
+          refine ⟨Reach.step _ ih.reach hs, lockIff_release p tid .idle rfl ih.lockIff hholder, ?_, ?_, ?_, ?_,
+            ih.memFlat, ih.idle, ih.sigEq, ?_, ?_⟩
+          · -- the live timestamps lose exactly `ts`
+            have e1 : (p.sys.hist.map (·.ts)).filter (fun t => !(p.rejected ++ [ts]).contains t) =
+                ((p.sys.hist.map (·.ts)).filter (fun t => !p.rejected.contains t)).filter (fun t => t != ts) := by
+              rw [List.filter_filter]
+              apply List.filter_congr
+              intro t _
+              by_cases h1 : t ∈ p.rejected <;> by_cases h2 : t = ts <;> simp [h1, h2]
+            simp only [Pipe.liveTs, hfr.1, Pipe.stampedTs, Pipe.enq, List.append_nil]
+            simp only [Pipe.liveTs] at hlive
+            rw [e1, hlive, List.filter_append]
+            have e2 : (p.enq.map (·.ts)).filter (fun t => t != ts) = p.enq.map (·.ts) := by
+              apply List.filter_eq_self.mpr
+              intro a ha; have := hlt a ha; simp; omega
+            rw [e2]; simp [Pipe.enq]
+          · intro t ht
+            simp only [hfr.1, hfr.2]
+            rcases List.mem_append.mp ht with ht | ht
+            · obtain ⟨h1, h2⟩ := ih.rejHist t ht
+              exact ⟨h1, List.mem_append.mpr (.inl h2)⟩
+            · simp at ht; subst ht
+              exact ⟨List.mem_map.mpr ⟨e0, he0, hts0⟩, List.mem_append.mpr (.inr (List.mem_singleton.mpr rfl))⟩
+          · intro q hq; simp only [hfr.1]; exact ih.keysEnq q hq
+          · intro t ts' ks hc; simp only [hfr.1]; exact hk1 t ts' ks hc
+          · intro t ht
+            simp only [hfr.2] at ht
+            rcases List.mem_append.mp ht with ht | ht
+            · rcases ih.ackSub t ht with h1 | h1
+              · exact .inl h1
+              · exact .inr (List.mem_append.mpr (.inl h1))
+            · right; exact List.mem_append.mpr (.inr ht)
+          · intro t ts' hc
+            obtain ⟨h1, h2⟩ := hk2 t ts' hc
+            simp only [hfr.2]
+            exact ⟨List.mem_append.mpr (.inl h1), h2⟩
       · cases hstep
     | unlock tid =>
       simp only [Pipe.step] at hstep
@@ -405,20 +479,13 @@ theorem PReach.inv {d : Bool} {n : Nat} {p : Pipe} (h : PReach d n p) : PInv d n
         simp only [Option.some.injEq] at hstep
         subst hstep
         have hholder : p.lockHolder = some tid := (ih.lockIff tid).mp (by simp [hcp, CPhase.holds])
-        refine ⟨ih.reach, lockIff_release p tid _ rfl ih.lockIff hholder, ?_, ih.keysEnq, ?_, ih.memFlat,
-          ih.idle, ih.sigEq, ih.ackSub, ?_⟩
-        · have := ih.histEnq
-          simp only [Pipe.stampedTs, hholder, hcp] at this
-          simp only [Pipe.stampedTs, Pipe.enq] at this ⊢
-          exact this
-        · intro t ts' ks hc
-          by_cases ht : t = tid
-          · subst ht; simp only [setPh_same] at hc; cases hc
-          · simp only [setPh_other _ _ _ _ ht] at hc; exact ih.keysStamped t ts' ks hc
-        · intro t ts' hc
-          by_cases ht : t = tid
-          · subst ht; simp only [setPh_same] at hc; cases hc
-          · simp only [setPh_other _ _ _ _ ht] at hc; exact ih.acked t ts' hc
+        obtain ⟨hk1, hk2⟩ := phase_facts_keep ih tid (.waiting ts) (by intro _ _ h; cases h) (by intro _ h; cases h)
+        refine ⟨ih.reach, lockIff_release p tid _ rfl ih.lockIff hholder, ?_, ih.rejHist, ih.keysEnq, hk1, ih.memFlat,
+          ih.idle, ih.sigEq, ih.ackSub, hk2⟩
+        have := ih.histEnq
+        simp only [Pipe.stampedTs, hholder, hcp] at this
+        simp only [Pipe.stampedTs, Pipe.enq, Pipe.liveTs] at this ⊢
+        exact this
       · cases hstep
     | dequeue k =>
       simp only [Pipe.step] at hstep
@@ -436,12 +503,10 @@ theorem PReach.inv {d : Bool} {n : Nat} {p : Pipe} (h : PReach d n p) : PInv d n
         rw [hb, hpend] at hm2
         simp at hm2
         subst hm2
-        have henq : (p.finished ++ (some (List.take k p.writeCh)).getD [] ++ List.drop k p.writeCh) = p.enq := by
-          simp [Pipe.enq, hb, List.append_assoc]
-        refine ⟨ih.reach, ih.lockIff, ?_, ?_, ih.keysStamped, ⟨[], by simpa using hm1, by simp⟩,
+        refine ⟨ih.reach, ih.lockIff, ?_, ih.rejHist, ?_, ih.keysStamped, ⟨[], by simpa using hm1, by simp⟩,
           (by intro h; cases h), ih.sigEq, ih.ackSub, ih.acked⟩
         · have := ih.histEnq
-          simp only [Pipe.stampedTs, Pipe.enq] at this ⊢
+          simp only [Pipe.stampedTs, Pipe.enq, Pipe.liveTs] at this ⊢
           simp only [Option.getD_some]
           rw [this, hb]; simp [← List.map_append, List.append_assoc]
         · intro q hq
@@ -460,7 +525,7 @@ theorem PReach.inv {d : Bool} {n : Nat} {p : Pipe} (h : PReach d n p) : PInv d n
         simp only [Option.some.injEq] at hstep
         subst hstep
         obtain ⟨applied, hm1, hm2⟩ := ih.memFlat
-        refine ⟨ih.reach, ih.lockIff, ih.histEnq, ih.keysEnq, ih.keysStamped,
+        refine ⟨ih.reach, ih.lockIff, ih.histEnq, ih.rejHist, ih.keysEnq, ih.keysStamped,
           ⟨applied ++ [e], by simp [hm1], by rw [hp] at hm2; simpa using hm2⟩,
           (by intro h; rw [hb] at h; cases h), ih.sigEq, ih.ackSub, ih.acked⟩
       · cases hstep
@@ -473,18 +538,23 @@ theorem PReach.inv {d : Bool} {n : Nat} {p : Pipe} (h : PReach d n p) : PInv d n
         obtain ⟨applied, hm1, hm2⟩ := ih.memFlat
         rw [hp, hb] at hm2
         simp only [List.append_nil, Option.getD_some] at hm2
-        refine ⟨ih.reach, ih.lockIff, ?_, ?_, ih.keysStamped,
-          ⟨[], by simp [hm1, hm2], by simp [hp]⟩, fun _ => hp, by simp [ih.sigEq], ?_, ih.acked⟩
+        refine ⟨ih.reach, ih.lockIff, ?_, ih.rejHist, ?_, ih.keysStamped,
+          ⟨[], by simp [hm1, hm2], by simp [hp]⟩, fun _ => hp, by simp [ih.sigEq], ?_, ?_⟩
         · have := ih.histEnq
-          simp only [Pipe.stampedTs, Pipe.enq, hb, Option.getD_some] at this
-          simp only [Pipe.stampedTs, Pipe.enq, Option.getD_none, List.append_nil]
+          simp only [Pipe.stampedTs, Pipe.enq, hb, Option.getD_some, Pipe.liveTs] at this
+          simp only [Pipe.stampedTs, Pipe.enq, Option.getD_none, List.append_nil, Pipe.liveTs]
           exact this
         · intro q hq
           apply ih.keysEnq q
           simp only [Pipe.enq, hb, Option.getD_some]
           simpa [Pipe.enq] using hq
         · intro t ht
-          exact List.mem_append.mpr (.inl (ih.ackSub t ht))
+          rcases ih.ackSub t ht with h1 | h1
+          · exact .inl (List.mem_append.mpr (.inl h1))
+          · exact .inr h1
+        · intro t ts hc
+          obtain ⟨h1, h2⟩ := ih.acked t ts hc
+          exact ⟨h1, List.mem_append.mpr (.inl h2)⟩
       · cases hstep
     | ack tid =>
       simp only [Pipe.step] at hstep
@@ -501,7 +571,12 @@ theorem PReach.inv {d : Bool} {n : Nat} {p : Pipe} (h : PReach d n p) : PInv d n
             subst hstep
             have hfr := Sys.step_doneCommit p.sys s ts hs
             have hsig' : ts ∈ p.signalled := by simpa using hsig
-            refine ⟨Reach.step _ ih.reach hs, ?_, ?_, ?_, ?_, ih.memFlat, ih.idle, ih.sigEq, ?_, ?_⟩
+            have hne : ∀ t, p.lockHolder = some t → t ≠ tid := by
+              intro t hl e
+              subst e
+              have := (ih.lockIff t).mpr hl
+              rw [hcp] at this; simp [CPhase.holds] at this
+            refine ⟨Reach.step _ ih.reach hs, ?_, ?_, ?_, ?_, ?_, ih.memFlat, ih.idle, ih.sigEq, ?_, ?_⟩
             · intro t
               by_cases ht : t = tid
               · subst ht
@@ -511,19 +586,18 @@ theorem PReach.inv {d : Bool} {n : Nat} {p : Pipe} (h : PReach d n p) : PInv d n
                 simpa [CPhase.holds] using this
               · simp only [setPh_other _ _ _ _ ht]; exact ih.lockIff t
             · have := ih.histEnq
-              have hne : ∀ t, p.lockHolder = some t → t ≠ tid := by
-                intro t hl e
-                subst e
-                have := (ih.lockIff t).mpr hl
-                rw [hcp] at this; simp [CPhase.holds] at this
-              simp only [hfr.1, Pipe.enq]
-              simp only [Pipe.enq] at this
+              simp only [Pipe.liveTs, hfr.1, Pipe.enq]
+              simp only [Pipe.liveTs, Pipe.enq] at this
               rw [this]
               congr 1
               simp only [Pipe.stampedTs]
               cases hl : p.lockHolder with
               | none => rfl
               | some t => simp only [setPh_other _ _ _ _ (hne t hl)]
+            · intro t ht
+              obtain ⟨h1, h2⟩ := ih.rejHist t ht
+              simp only [hfr.1, hfr.2]
+              exact ⟨h1, List.mem_append.mpr (.inl h2)⟩
             · intro q hq; simp only [hfr.1]; exact ih.keysEnq q hq
             · intro t ts' ks hc
               simp only [hfr.1]
@@ -534,14 +608,15 @@ theorem PReach.inv {d : Bool} {n : Nat} {p : Pipe} (h : PReach d n p) : PInv d n
               simp only [hfr.2] at ht
               rcases List.mem_append.mp ht with ht | ht
               · exact ih.ackSub t ht
-              · simp at ht; subst ht; exact hsig'
+              · simp at ht; subst ht; exact .inl hsig'
             · intro t ts' hc
               simp only [hfr.2]
               by_cases ht : t = tid
               · subst ht; simp only [setPh_same] at hc; cases hc
-                exact List.mem_append.mpr (.inr (List.mem_singleton.mpr rfl))
+                exact ⟨List.mem_append.mpr (.inr (List.mem_singleton.mpr rfl)), hsig'⟩
               · simp only [setPh_other _ _ _ _ ht] at hc
-                exact List.mem_append.mpr (.inl (ih.acked t ts' hc))
+                obtain ⟨h1, h2⟩ := ih.acked t ts' hc
+                exact ⟨List.mem_append.mpr (.inl h1), h2⟩
       · cases hstep
 
 end Badger
